@@ -29,6 +29,11 @@ replaces a module and sets nested hyper-parameters of it (`module_b=FuzzyART(...
 plus plain eta / nested-only keys for the module that stays, keyword order shuffled), then fit: columns == the configured
 module (nested values applied) alone on X.T, rows == the configured row module alone on X under a never-vetoing reset
 function, shapes follow, partition, membership (oracle only).
+`plot_calls_stream`: plotting calls between fit and the next use of the fitted estimator — on the host, on a row / column
+module (elementary, TopoART with candidate nodes that still have members at the end of fit, DualVigilanceART) or on its base
+module; returning or ending in an exception the caller catches (warnings as errors, colour list too short / empty / a dict
+without the last cluster, axes failing midway, no axes) — then every clause of the statement that held right after fit,
+again, with no training in between (oracle only).
 """
 from __future__ import annotations
 
@@ -1098,6 +1103,266 @@ def param_grid_stream(ctx):
     cov.branches["param-grid:set_params-calls-the-library-rejected"] = n_rejected
 
 
+# ------------------------------------------------------------------ plotting calls on the fitted host and on its modules
+
+TOPO_BASES = ["ART2A", "ART2A", "FuzzyART", "HypersphereART", "EllipsoidART"]      # TopoART needs a base with `beta`
+DUAL_BASES = ["FuzzyART", "FuzzyART", "HypersphereART", "ART2A"]
+PLAIN_POOL = ["FuzzyART", "HypersphereART", "ART2A", "EllipsoidART", "QuadraticNeuronART", "FuzzyART"]
+WRAPS = [("plain", "topo"), ("topo", "plain"), ("plain", "dual"), ("plain", "topo"), ("topo", "topo"), ("plain", "plain"),
+         ("dual", "topo"), ("plain", "topo")]
+PLOT_CALLS = ["plot_cluster_bounds", "plot_cluster_bounds", "visualize", "host.visualize"]
+PLOT_COLOURS = ["one-per-cluster", "long", "short", "empty", "dict-without-the-last-cluster", "default"]
+PLOT_MODES = ["plain", "warnings-as-errors", "warnings-as-errors", "axes-fail-midway", "no-axes"]
+
+
+def _side_spec(r, wrap, d, n):
+    """spec of one BARTMAP module clustering n samples of d features: an elementary module, a TopoART over a base that
+    learns with `beta` (pruning every tau samples; with tau not dividing n the nodes created since the last round are
+    still candidates, not permanent, at the end of fit), or a DualVigilanceART"""
+    if wrap == "topo":
+        base = specs.elem_spec(r, r.choice(TOPO_BASES), d)
+        base["rho"] = r.choice([0.5, 0.75, 0.9, 0.9, 0.95]) if base["cls"] != "FuzzyART" else r.choice([0.5, 0.7, 0.8, 0.9])
+        taus = [t for t in range(2, n) if n % t] or [max(2, n - 1)]
+        tau = r.choice(taus + [n, n + 3])
+        return {"cls": "TopoART", "base_module": base, "beta_lower": r.choice([base["beta"], base["beta"] / 2]),
+                "tau": tau, "phi": r.choice([1, 1, 1, min(2, tau)])}
+    if wrap == "dual":
+        base = specs.elem_spec(r, r.choice(DUAL_BASES), d)
+        base["rho"], lb = r.choice([(0.9, 0.5), (0.85, 0.6), (0.95, 0.7), (0.75, 0.25)])
+        return {"cls": "DualVigilanceART", "base_module": base, "rho_lower_bound": lb}
+    return specs.elem_spec(r, r.choice(PLAIN_POOL), d)
+
+
+class _FailingAxes:
+    """a caller's axes whose drawing primitive fails at the k-th call (a backend error, an interrupted session):
+    everything else is the real Axes"""
+
+    def __init__(self, ax, k):
+        object.__setattr__(self, "_ax", ax)
+        object.__setattr__(self, "_left", k)
+
+    def __getattr__(self, name):
+        real = getattr(self._ax, name)
+        if name in ("add_patch", "add_artist", "plot", "add_line", "add_collection", "scatter", "fill"):
+            def call(*a, **kw):
+                if self._left <= 0:
+                    raise RuntimeError("the axes cannot draw any more")
+                object.__setattr__(self, "_left", self._left - 1)
+                return real(*a, **kw)
+            return call
+        return real
+
+
+def _c17_clauses(bm, nr, nc, alone_labels, alone_n):
+    """the statement, clause by clause, on what the estimator reports NOW -> {clause: None | what is wrong}"""
+    out = {"shapes": None, "label-range": None, "partition": None, "membership": None, "columns-alone": None}
+    st = _fitted_state(bm)
+    na, nb = st["n_row_clusters"], st["n_column_clusters"]
+    rl, cl, rows_, cols_ = st["row_labels_"], st["column_labels_"], st["rows_"], st["columns_"]
+    if rows_.shape != (na * nb, nr) or cols_.shape != (na * nb, nc):
+        out["shapes"] = (f"rows_ {rows_.shape} columns_ {cols_.shape}, but the estimator reports {na} row clusters x {nb} "
+                         f"column clusters on a {nr}x{nc} matrix: one row per pair would be ({na * nb}, {nr}) / ({na * nb}, {nc})")
+    if rl.shape != (nr,) or cl.shape != (nc,) or (rl.size and (rl.min() < 0 or rl.max() >= na)) or \
+            (cl.size and (cl.min() < 0 or cl.max() >= nb)):
+        out["label-range"] = (f"row_labels_ {rl.tolist()} with n_row_clusters={na}, column_labels_ {cl.tolist()} with "
+                              f"n_column_clusters={nb}: a row / column with a label outside range(n) belongs to no "
+                              f"(row-cluster, column-cluster) pair")
+    # membership computed from the labels and the cluster counts reported now: every cell in exactly one pair
+    if rl.shape == (nr,) and cl.shape == (nc,):
+        mr = np.array([rl == a for a in range(na) for _ in range(nb)], dtype=bool).reshape(na * nb, nr)
+        mc = np.array([cl == b for _ in range(na) for b in range(nb)], dtype=bool).reshape(na * nb, nc)
+        cover = mr.astype(int).T @ mc.astype(int)
+        if rows_.shape == mr.shape and cols_.shape == mc.shape:
+            cover2 = rows_.astype(int).T @ cols_.astype(int)
+            if not np.all(cover2 == 1):
+                cover = cover2
+            if not (np.array_equal(rows_, mr) and np.array_equal(cols_, mc)):
+                out["membership"] = "rows_ / columns_ differ from the pre-images of row_labels_ / column_labels_"
+        if not np.all(cover == 1):
+            i, j = [int(t) for t in np.argwhere(cover != 1)[0]]
+            out["partition"] = (f"{int(np.sum(cover != 1))} of {nr * nc} cells are not in exactly one bicluster of the "
+                                f"{na}x{nb} checkerboard (cell ({i},{j}) lies in {int(cover[i, j])})")
+    if alone_labels is not None and (cl.tolist() != alone_labels or nb != alone_n):
+        out["columns-alone"] = (f"column_labels_ {cl.tolist()} / n_column_clusters {nb}, the column module alone on X.T: "
+                                f"{alone_labels} / {alone_n} clusters")
+    return out
+
+
+def plot_calls_stream(ctx):
+    """"After BARTMAP.fit ..." speaks about the fitted estimator until the next training call.  A plotting call lies in
+    between for most users: `bartmap.visualize()`, `bartmap.module_b.plot_cluster_bounds(ax, colors)`,
+    `bartmap.module_a.visualize(X, labels, ax=ax, colors=...)`, on the host, on a row / column module, or on the base module
+    of a wrapped one.  Module pairs: elementary modules, TopoART over ART2A / FuzzyART / HypersphereART / EllipsoidART (tau
+    not dividing the number of samples: candidate nodes that still have members at the end of fit), DualVigilanceART.
+    The call may return or END IN AN EXCEPTION that the caller catches — a session that runs with
+    `warnings.simplefilter("error")` and a base module that only warns 'does not support plotting cluster bounds', a colour
+    list that is too short / empty / a dict without the last cluster, axes that fail in the middle of the drawing, no axes
+    at all.  An exception of the plotting call is tolerated (not the property's business).  Oracle: with no training in
+    between, every clause of the statement that held right after fit still holds on what the estimator reports now —
+    rows_/columns_ have one row per (row-cluster, column-cluster) pair and widths n_rows / n_cols; labels inside
+    range(n_row_clusters) / range(n_column_clusters); every cell in exactly one bicluster; membership == label pre-images;
+    column clustering (labels and number of clusters) == the column module alone on X.T."""
+    import warnings
+    import matplotlib
+    if matplotlib.get_backend().lower() != "agg":
+        matplotlib.use("Agg", force=True)
+    import matplotlib.pyplot as plt
+    cov = ctx.cov
+    for i in range(ctx.scale(96, 960)):
+        r = gen.rng_for(ctx.seed, "C17/plot-calls", i)
+        wa, wb = WRAPS[i % len(WRAPS)]
+        nr = r.randint(5, 12)
+        square = r.random() < 0.5
+        nc = nr if square else r.choice([c for c in range(5, 13) if c != nr])
+        kind = r.choice(["grid", "float", "float"])
+        X, _meta = block_matrix(r, nr, nc, kind, wide=r.random() < 0.6)
+        if r.random() < 0.5:      # an outlier column / row presented last: a node of its own after the last pruning round
+            X[:, -1] = [r.random() for _ in range(nr)]
+        if r.random() < 0.3:
+            X[-1, :] = [r.random() for _ in range(nc)]
+        sa, sb = _side_spec(r, wa, nc, nr), _side_spec(r, wb, nr, nc)
+        shipped = square and r.random() < 0.3
+        accept_all = not shipped and r.random() < 0.5
+        vt = None if (shipped or accept_all) else gen.veto_table(r, nr, nr + 1)
+        eta = r.choice(ETAS)
+        rep = {"stream": "plot-calls", "module_a": sa, "module_b": sb, "eta": eta, "X": X,
+               "reset_function": "shipped" if shipped else "accept-all" if accept_all else "veto table", "veto": vt}
+        try:
+            with quiet():
+                pa, pb = make(sa), make(sb)
+                Xa, Xb = pa.prepare_data(X), pb.prepare_data(X.T)        # what the modules were trained on (fresh copies)
+                pa.validate_data(Xa)
+                pb.validate_data(Xb)
+                bm, alone = BARTMAP(make(sa), make(sb), eta), make(sb)
+        except Exception as e:
+            cov.hit(f"plot-calls:configuration-or-data-rejected:{exc_enum(e)}")
+            continue
+        if accept_all:
+            object.__setattr__(bm, "match_reset_func", lambda i_, w, cluster_a, params, extra, cache=None: True)
+        elif vt is not None:
+            def reset(i_, w, cluster_a, params, extra, cache=None, _vt=vt):
+                return not _vt[extra["k"]][cluster_a]
+            object.__setattr__(bm, "match_reset_func", reset)
+        try:
+            with quiet():
+                bm.fit(X)
+        except Exception as e:
+            cov.hit("plot-calls:fit-raised:" + classify(e, X, bm))          # judged by the other streams
+            continue
+        try:
+            with quiet():
+                alone.fit(alone.prepare_data(X.T))
+            alone_labels, alone_n = [int(t) for t in alone.labels_], int(alone.n_clusters)
+        except Exception as e:
+            cov.hit(f"plot-calls:column-module-alone-raised:{exc_enum(e)}")
+            alone_labels, alone_n = None, None
+        pre = _c17_clauses(bm, nr, nc, alone_labels, alone_n)
+        for clause, bad in pre.items():
+            if bad is not None:
+                cov.hit(f"plot-calls:clause-already-broken-right-after-fit:{clause}")     # judged by the other streams
+        cov.hit(f"plot-calls:modules:{wa}/{wb}")
+        candidates = {}
+        for side, m in (("a", bm.module_a), ("b", bm.module_b)):
+            if m.__class__.__name__ == "TopoART":
+                pm = np.asarray(m._permanent_mask, dtype=bool).reshape(-1)
+                lab = np.asarray(m.labels_, dtype=int)
+                cand = [k for k in range(len(m.W)) if k < len(pm) and not pm[k] and (lab == k).any()]
+                candidates[side] = cand
+                if cand:
+                    cov.hit(f"plot-calls:topo-module-{side}:candidate-node-with-members-at-the-end-of-fit"
+                            + (":and-a-permanent-node" if pm.any() else ""))
+                cov.hit(f"plot-calls:topo-module-{side}:base:{m.base_module.__class__.__name__}")
+        st0 = _fitted_state(bm)
+        fit_reported = {"row_labels": st0["row_labels_"].tolist(), "column_labels": st0["column_labels_"].tolist(),
+                        "na": st0["n_row_clusters"], "nb": st0["n_column_clusters"]}
+        calls = []
+        for j in range(r.randint(1, 3)):
+            what = r.choice(PLOT_CALLS)
+            side = r.choice([s for s, w in (("a", wa), ("b", wb)) if w != "plain"] * 3 + ["a", "b"])
+            mode = r.choice(PLOT_MODES)
+            colours = r.choice(PLOT_COLOURS)
+            on_base = what != "host.visualize" and (wa if side == "a" else wb) != "plain" and r.random() < 0.25
+            m = bm.module_a if side == "a" else bm.module_b
+            target = f"module_{side}" + (".base_module" if on_base else "")
+            if on_base:
+                m = m.base_module
+            Xm = Xa if side == "a" else Xb
+            own = r.random() < 0.6
+            call = {"call": what, "on": "host" if what == "host.visualize" else target, "mode": mode,
+                    "colours": None if what == "host.visualize" else colours,
+                    "labels_argument": None if what != "visualize" else ("the module's own labels_ array" if own else "a copy")}
+            figs = set(plt.get_fignums())
+            raised = None
+            try:
+                with quiet():
+                    with warnings.catch_warnings():
+                        if mode == "warnings-as-errors":
+                            warnings.simplefilter("error")
+                        if what == "host.visualize":
+                            bm.visualize() if r.random() < 0.6 else bm.visualize(cmap="viridis")
+                        else:
+                            n_cl = int(m.n_clusters)
+                            if colours == "one-per-cluster":
+                                cols = plt.cm.rainbow(np.linspace(0, 1, max(n_cl, 1)))
+                            elif colours == "long":
+                                cols = [(0.1 * (k % 10), 0.5, 0.5, 1.0) for k in range(n_cl + 12)]
+                            elif colours == "short":
+                                cols = ["r", "g", "b"][: max(0, min(3, n_cl - 1))]
+                            elif colours == "empty":
+                                cols = []
+                            elif colours == "dict-without-the-last-cluster":
+                                cols = {k: "k" for k in range(max(n_cl - 1, 0))}
+                            else:
+                                cols = None
+                            fig, ax = plt.subplots()
+                            if mode == "axes-fail-midway":
+                                ax = _FailingAxes(ax, r.randint(0, 2))
+                            elif mode == "no-axes":
+                                ax = None
+                            if what == "plot_cluster_bounds":
+                                m.plot_cluster_bounds(ax, cols if cols is not None else plt.cm.rainbow(np.linspace(0, 1, max(n_cl, 1))))
+                            else:
+                                y = m.labels_ if own and hasattr(m, "labels_") else np.array(getattr(m, "labels_", np.zeros(len(Xm), dtype=int)))
+                                m.visualize(Xm, y, ax=ax, colors=cols)
+            except Exception as e:
+                raised = exc_enum(e)
+                call["raised"] = f"{type(e).__name__}: {str(e)[:100]}"
+            finally:
+                for f in set(plt.get_fignums()) - figs:
+                    plt.close(f)
+            calls.append(call)
+            cov.hit(f"plot-calls:{what}:" + ("ended-in-an-exception" if raised else "returned"))
+            cov.hit(f"plot-calls:mode:{mode}:" + ("ended-in-an-exception" if raised else "returned"))
+            if what != "host.visualize":
+                cov.hit(f"plot-calls:on:{'base-module-of-' if on_base else ''}{wa if side == 'a' else wb}-module:"
+                        + ("ended-in-an-exception" if raised else "returned"))
+                cov.hit(f"plot-calls:colours:{colours}")
+                if raised and candidates.get(side):
+                    cov.hit("plot-calls:failed-plot-on-a-topo-module-with-a-candidate-node-that-has-members")
+            # ---- the clauses again, no training in between
+            post = _c17_clauses(bm, nr, nc, alone_labels, alone_n)
+            broke = [c for c in post if post[c] is not None and pre[c] is None]
+            if broke:
+                c = broke[0]
+                seq = "; ".join(f"{q['on']}.{q['call'].split('.')[-1]}(colours={q['colours']}, {q['mode']})"
+                                + (f" -> raised {q['raised']}" if q.get("raised") else " -> returned") for q in calls)
+                ctx.issue("violation", f"BARTMAP.fit+plot:{c}",
+                          f"BARTMAP({sa['cls']}{'/' + sa['base_module']['cls'] if 'base_module' in sa else ''}, "
+                          f"{sb['cls']}{'/' + sb['base_module']['cls'] if 'base_module' in sb else ''}, eta={eta}) on a {nr}x{nc} "
+                          f"matrix: the clause held right after fit (row_labels_ {fit_reported['row_labels']}, column_labels_ "
+                          f"{fit_reported['column_labels']}, {fit_reported['na']}x{fit_reported['nb']} clusters); after the plotting "
+                          f"call(s) [{seq}] and no training in between: {post[c]}"[:1100],
+                          {**rep, "reported_after_fit": fit_reported, "plotting_calls": calls,
+                           "clauses_broken_after_the_plotting_calls": {q: post[q] for q in broke}})
+                cov.hit("plot-calls:clause-broken-by-a-plotting-call")
+                break
+        else:
+            cov.hit("plot-calls:clauses-intact-after-the-plotting-calls")
+        cov.hit("plot-calls:fit-returned")
+        cov.case(("plot-calls", repr(sa), repr(sb), eta, X.tobytes(), repr(vt), repr(calls)),
+                 st0["n_row_clusters"] >= 2 or st0["n_column_clusters"] >= 2)
+
+
 def prepare(ctx):
     """Translator tie (see gen_tie.py): the source of this slice is re-translated to Lean on every run
     (harness/artv/btrans.py) and proved equal to the model the property theorems are about"""
@@ -1163,6 +1428,7 @@ def run(ctx):
     pruning_row_module(ctx)
     layout_stream(ctx)
     param_grid_stream(ctx)
+    plot_calls_stream(ctx)
 
 
 def pruning_row_module(ctx):
